@@ -5,7 +5,7 @@ from analysis import Program
 from engine import Ob, known_keys, load_known
 import props
 
-REPO = os.environ.get('VERIF_REPO', '/repo')
+REPO = os.environ.get('VERIF_REPO', '/repo')   # VERIF_REPO: development only (selftest mutants on scratch copies)
 CRATE = 'expression_engine'
 
 
@@ -125,8 +125,9 @@ def finish(pid, tier, spec, ctx, obs, meta, configs, cfg_diff, t0):
         'wall_s': round(time.time() - t0, 3),
         'violations': len(new),
     }
-    with open(os.path.join(VERIF, 'evidence', '%s.json' % pid), 'w') as f:
-        json.dump(ev, f, indent=1)
+    if not os.environ.get('VERIF_NO_EVIDENCE'):
+        with open(os.path.join(VERIF, 'evidence', '%s.json' % pid), 'w') as f:
+            json.dump(ev, f, indent=1)
     print('%s %s: %d obligations, %d discharged/assumed, %d known findings, %d new violations  [%s; %.1fs]'
           % (pid, tier, n, disc, len(old), len(new), ','.join(configs), time.time() - t0))
     return 1 if new else 0
